@@ -68,6 +68,7 @@ type ReqSpec struct {
 	Compress  bool        `json:"compress,omitempty"`
 	Msgs      []MsgSpec   `json:"msgs"`
 	Sep       string      `json:"sep,omitempty"` // json streams: separator between objects
+	SepEnd    bool        `json:"sep_end,omitempty"` // ... and after the last one too (newline-delimited JSON ends every line with its newline)
 	Timeout   string      `json:"timeout,omitempty"`
 	PingPong  bool        `json:"ping_pong,omitempty"`
 	TwinOf    int         `json:"twin_of,omitempty"`   // C10: the same call script run directly against the backend (not through larking)
@@ -402,6 +403,9 @@ func (r *reqState) encode() {
 				}
 				w = append(w, marshalMsg("json", r.clientMsg(i))...)
 				r.bounds = append(r.bounds, len(w))
+			}
+			if sp.SepEnd && len(sp.Msgs) > 0 {
+				w = append(w, sp.Sep...)
 			}
 		case sp.Codec == "proto":
 			h.Set("Content-Type", "application/protobuf")
@@ -900,6 +904,14 @@ func runMuxScenario(t *testing.T, sc *MuxScenario, tape *core.Tape) (mr *muxRun)
 						rs.cutMid = false
 					}
 				}
+				if sp := rs.spec; sp.Proto == "http" && sp.Codec == "json" && sp.Sep != "" && !sp.Compress {
+					// ... or inside the whitespace that follows a complete object
+					for i, b := range rs.bounds {
+						if follows := i < len(rs.bounds)-1 || sp.SepEnd; follows && rs.end > b && rs.end <= b+len(sp.Sep) {
+							rs.cutMid = false
+						}
+					}
+				}
 				if rs.bounds == nil {
 					rs.cutMid = false
 				}
@@ -1145,8 +1157,7 @@ func (r *reqState) directTask(b *backend) {
 	for _, kv := range sp.MD {
 		k, v := strings.ToLower(kv[0]), kv[1]
 		if strings.HasSuffix(k, "-bin") {
-			raw, _ := base64.RawStdEncoding.DecodeString(v)
-			v = string(raw)
+			v = string(binDecode(v))
 		}
 		md.Append(k, v)
 	}
